@@ -157,7 +157,7 @@ func (c *XAConn) BeginTx(ctx context.Context, opts driver.TxOptions) (driver.Tx,
 		c.xaActive = true
 	}
 
-	return &XATx{tx: tx.(*Tx)}, nil
+	return &XATx{tx: tx.(*Tx), conn: c, ctx: ctx}, nil
 }
 
 func (c *XAConn) createOnceTxContext(ctx context.Context) bool {
